@@ -1,7 +1,8 @@
-(* C11, grouping layer, letter case of keywords -- UNBOUNDED: all 25 passes of grouping.group, hence
-   parse(), are insensitive to the ASCII letter case of keyword tokens, except for the one literal
-   test of group_functions (`token.value == 'AS'`, finding C11_as_case_refuted) and the splitter's
-   literal `GO` (C11_go_case_refuted).
+(* C11, grouping layer, letter case of keywords -- UNBOUNDED and UNGUARDED: all 25 passes of grouping.group,
+   hence parse(), are insensitive to the ASCII letter case of keyword tokens.  (Until the `fix:` commits in
+   /repo the statements carried two guards: the one literal test of group_functions, `token.value == 'AS'`,
+   and the splitter's literal `GO`; the guarded forms are kept below, the headline theorems are
+   C11_group_case_full / C11_parse_case_full / C11_parse_case_text_full.)
    Relations: Group/CaseRelDefs.v (crel: same structure, classes and token types; values equal except
    on leaves whose type is in T.Keyword, where they are ASCII re-casings of each other; cached group
    values re-casings).  Proofs: Group/CaseRelFacts.v (generic), Inst/C11Group.v (instances). *)
@@ -115,23 +116,46 @@ Print Assumptions C11_parse_case_err.
 Print Assumptions C11_parse_upto_case_rel.
 Print Assumptions C11_parse_case_text.
 
-(* ---- the guard is necessary ---------------------------------------------------------------------------------- *)
-Theorem C11_group_as_case_refuted :
-  exists n n', crel n n' /\ ~ as_guard n n' /\
-    match group n, group n' with
-    | Ok m, Ok m' => ~ crel m m'
-    | _, _ => False
-    end.
-Proof. exact C11Group.C11_group_as_case_refuted. Qed.
-Theorem C11_parse_as_case_refuted :
-  exists t t',
-    Forall2 Rcase t t' /\
-    (exists l l', cur_lex t = Ok l /\ cur_lex t' = Ok l' /\
-                  Forall2 (fun a b => tok_crel a b /\ go_guard a b) l l') /\
-    match cur_parse t, cur_parse t' with
-    | Ok ss, Ok ss' => ~ Forall2 crel ss ss'
-    | _, _ => False
-    end.
-Proof. exact C11Group.C11_parse_as_case_refuted. Qed.
-Print Assumptions C11_group_as_case_refuted.
-Print Assumptions C11_parse_as_case_refuted.
+(* ---- NO GUARD: the headline theorems ---------------------------------------------------------------------- *)
+(* all 25 passes *)
+Theorem C11_group_case_full : forall n n', crel n n' -> rres crel (group n) (group n').
+Proof. exact C11Group.group_rel. Qed.
+Theorem C11_group_upto_case_full : forall k n n', crel n n' -> rres crel (group_upto k n) (group_upto k n').
+Proof. exact C11Group.group_upto_rel. Qed.
+(* the splitter, token by token (whitespace included) *)
+Theorem C11_case_split_pointwise_full : forall l l',
+  Forall2 tok_crel l l' -> Forall2 (Forall2 tok_crel) (cur_process l) (cur_process l').
+Proof. exact C11Group.C11_case_split_pointwise_full. Qed.
+(* parse(): related token streams give related trees (or the same exception) after every pass *)
+Theorem C11_parse_upto_case_full : forall k t t' l l',
+  cur_lex t = Ok l -> cur_lex t' = Ok l' -> Forall2 tok_crel l l' ->
+  rres (Forall2 crel) (cur_parse_upto k t) (cur_parse_upto k t').
+Proof. exact C11Group.parse_rel. Qed.
+Theorem C11_parse_case_full : forall t t' l l',
+  cur_lex t = Ok l -> cur_lex t' = Ok l' -> Forall2 tok_crel l l' ->
+  forall ss, cur_parse t = Ok ss ->
+  exists ss', cur_parse t' = Ok ss' /\ Forall2 crel ss ss' /\
+              Forall2 (fun s s' => get_type s = get_type s') ss ss'.
+Proof. exact C11Group.C11_parse_case_full. Qed.
+Theorem C11_parse_case_err_full : forall t t' l l',
+  cur_lex t = Ok l -> cur_lex t' = Ok l' -> Forall2 tok_crel l l' ->
+  forall e, cur_parse t = Err e -> cur_parse t' = Err e.
+Proof. exact C11Group.C11_parse_case_err_full. Qed.
+(* from the TEXT: ANY ASCII re-casing that touches keyword tokens only *)
+Theorem C11_parse_case_text_full : forall t t' l l',
+  Forall2 Rcase t t' -> cur_lex t = Ok l -> cur_lex t' = Ok l' -> Forall2 C11Group.kw_only l l' ->
+  forall ss, cur_parse t = Ok ss ->
+  exists ss', cur_parse t' = Ok ss' /\ Forall2 crel ss ss' /\
+              Forall2 (fun s s' => get_type s = get_type s') ss ss'.
+Proof. exact C11Group.C11_parse_case_text_full. Qed.
+Print Assumptions C11_group_case_full.
+Print Assumptions C11_case_split_pointwise_full.
+Print Assumptions C11_parse_upto_case_full.
+Print Assumptions C11_parse_case_full.
+Print Assumptions C11_parse_case_err_full.
+Print Assumptions C11_parse_case_text_full.
+
+(* the former witnesses of the two guards ('create table foo AS select f(x)' / '... as ...';
+   'select 1 GO select 2' / '... go ...') now parse to related trees *)
+Definition C11_as_case_witness_fixed := C11Group.C11_as_case_witness_fixed.
+Definition C11_go_case_witness_fixed := C11Group.C11_go_case_witness_fixed.
